@@ -208,7 +208,8 @@ func (e *MetaCDC) ReloadTask() {
 			continue
 		}
 		if err := e.startInternal(taskInfo, taskInfo.State == meta.TaskStateRunning); err != nil {
-			log.Warn("fail to start the task", zap.Any("task_info", taskInfo), zap.Error(err))
+			maskedInfo := *taskInfo
+			log.Warn("fail to start the task", zap.Any("task_info", request.GetTask(&maskedInfo)), zap.Error(err))
 			_ = e.pauseTaskWithReason(taskInfo.TaskID, "fail to start task, err: "+err.Error(), []meta.TaskState{})
 		}
 		// replicateEntity := e.replicateEntityMap.data[uKey]
@@ -424,7 +425,7 @@ func (e *MetaCDC) Create(req *request.CreateRequest) (resp *request.CreateRespon
 	defer func() {
 		log.Info("create request done")
 		if err != nil {
-			log.Warn("fail to create cdc task", zap.Any("req", req), zap.Error(err))
+			log.Warn("fail to create cdc task", zap.String("req", GetRequestInfo(req)), zap.Error(err))
 		}
 	}()
 	if err = e.validCreateRequest(req); err != nil {
@@ -706,6 +707,7 @@ func (e *MetaCDC) validCreateRequest(req *request.CreateRequest) error {
 			cdcwriter.DialConfigOption(milvusConnectParam.DialConfig),
 		)
 		if err != nil {
+			milvusConnectParam.Password, milvusConnectParam.Token = "", ""
 			log.Warn("fail to connect the milvus", zap.Any("connect_param", milvusConnectParam), zap.Error(err))
 			return errors.WithMessage(err, "fail to connect the milvus")
 		}
@@ -715,6 +717,7 @@ func (e *MetaCDC) validCreateRequest(req *request.CreateRequest) error {
 			cdcwriter.KafkaTopicOption(kafkaConnectParam.Topic),
 		)
 		if err != nil {
+			kafkaConnectParam.SASL.Username, kafkaConnectParam.SASL.Password = "", ""
 			log.Warn("fail to connect the kafka", zap.Any("connect_param", kafkaConnectParam), zap.Error(err))
 			return errors.WithMessage(err, "fail to connect the kafka")
 		}
